@@ -300,6 +300,12 @@ func cmdCheck(args []string) int {
 	var knownHit []string
 	exit := 0
 	os.MkdirAll(filepath.Join(*verifDir, "evidence", "replay"), 0o755)
+	if *prop != "" && *only == "" && *fnOnly == "" {
+		old, _ := filepath.Glob(filepath.Join(*verifDir, "evidence", "replay", *prop+"-*"))
+		for _, f := range old {
+			os.Remove(f)
+		}
+	}
 	var solverMs int64
 	for _, o := range obls {
 		solverMs += o.Ms
